@@ -900,7 +900,7 @@ func lemmaTypedGettersAgreeOnFound(st *SlimTrie, key string) (bool, bool, bool, 
 //@   ensures !c.withLeaves ==> result == nil
 
 //@ func newSlim
-//@   property C08 C12 C13
+//@   property C08 C12 C13 C17
 //@   opt kinds=pre(addInner),pre(build),post
 //@   ensures result1 == nil && len(keys) > 0 ==> wf_shape(result0)
 //@   ensures result1 == nil ==> result0 != nil
